@@ -111,6 +111,8 @@ type vStream struct {
 	// 3 constant 0x1B (00 01 10 11), 4 zeros
 	kind int
 	mu   sync.Mutex // Read is safe for concurrent use
+	// failOnce: the failure is transient - after the failing Read the source works again
+	failOnce bool
 }
 
 func vStreamByte(kind, i int) byte {
@@ -137,6 +139,9 @@ func (s *vStream) Read(p []byte) (int, error) {
 	if s.maxChunk > 0 && n > s.maxChunk {
 		n = s.maxChunk
 	}
+	if s.maxChunk > 0 {
+		runtime.Gosched() // short reads: give other readers the chance to interleave
+	}
 	if s.failAt >= 0 && s.pos+n > s.failAt {
 		n = s.failAt - s.pos
 		if n < 0 {
@@ -146,6 +151,9 @@ func (s *vStream) Read(p []byte) (int, error) {
 			p[i] = vStreamByte(s.kind, s.pos+i)
 		}
 		s.pos += n
+		if s.failOnce {
+			s.failAt = -1
+		}
 		if s.failErr != nil {
 			return n, s.failErr
 		}
